@@ -102,7 +102,11 @@ CHECKS["C19"] = {
 
 CHECKS["C11"] = {'design_ref': 'DESIGN.md section 6 C11',
  'note': 'Trusted: as C16, plus tools/bep29.py. No axioms. Accept/reject theorems assume the input is a list '
-         'of bytes (bytes_okb). Partial: emitted-datagram clause not covered. Finding W1 (serialize with '
+         'of bytes (bytes_okb). Emitted-datagram clause: theorems at the connection tier (hypothesis '
+         'c11_config_ok: the configured initial sequence numbers / remote connection id are u16) and at the '
+         'dispatcher tier (hypothesis: random_u16 values and parsed datagram fields are u16); refuted at the '
+         'dispatcher tier: the connection id of a SYN-ACK is not checked against the id the SYN announced '
+         '(c11_disp_syn_ack_conn_id_unchecked_refuted). Finding W1 (serialize with '
          'SACK and close reason together wrote a malformed chain) was found by this check and is repaired in '
          '/repo 2f571a9; model, theorems and generators are for the repaired code.',
  'technique': 'Coq proof (induction over the extension chain; iff with a declarative packet grammar) + '
@@ -120,9 +124,18 @@ CHECKS["C11"] = {'design_ref': 'DESIGN.md section 6 C11',
          'for the literal statement). Model tied to the real code by structural enumeration of extension '
          'chains x every truncation, random byte strings and random headers (all combinations of SACK / '
          'close reason / buffer length); the extracted predicates c11_de_ok / c11_msg_ok / c11_ser_ok and an '
-         "independent python BEP-29 parser are evaluated on the implementation's own outputs. NOT covered "
-         "here: the clause 'every datagram the library emits carries version 1 and the connection id owed to "
-         "that direction' (connection-level; only the per-header serialiser is checked)."}
+         "independent python BEP-29 parser are evaluated on the implementation's own outputs. Emitted datagrams "
+         "(connection tier, Gallina model of VirtualSocket::poll, every state / event list, any peer, transport and "
+         "congestion controller): every datagram a poll emits carries the connection's send id (ST_SYN would carry the "
+         "receive id), is ST_DATA / ST_FIN / ST_STATE, has a payload exactly when it is ST_DATA, a header whose fields "
+         "are in range and whose SACK (if any) has the 64-bit length, so that serialize writes it with version 1 and "
+         "deserialize returns the same header (c11_emitted_ok_every_trace, c11_conn_types_ok_every_trace, "
+         "c11_packet_ok_on_the_wire); the extracted c11_emitted_ok / c11_conn_types_ok are evaluated on every datagram "
+         "of every implementation trace (component vsock_wire). Dispatcher tier (every op list): every ST_SYN / "
+         "ST_RESET the dispatcher emits is a well-formed 20-byte header with version 1; a ST_RESET goes to the address "
+         "of the SYN it refuses, carries its connection id and acknowledges its sequence number (component disp_wire: "
+         "the real parser accepts every datagram the real dispatcher sent). Refuted: the id announced by a SYN is not "
+         "compared with the id of the SYN-ACK that completes the connect."}
 
 CHECKS["C14"] = {'design_ref': 'DESIGN.md section 6 C14',
  'note': 'Trusted: as C16. No axioms. Header constants re-read from the compiled crate on every run. The '
@@ -539,6 +552,30 @@ _more("C09",
       "the model theorem c09_trace_shift (the same statement about ftrace of the model) is not proved yet at this commit: the trace-shift "
       "clause is decided by the metamorphic run on the implementation (testing) plus the arithmetic theorems.",
       "Coq proof (lia over mod 2^16) + row-exhaustive correspondence + metamorphic relabelling runs judged by an extracted predicate")
+_more("C09",
+      "MODEL THEOREM of the trace-shift clause (Conn/C09_Shift.v, Conn/C09_ShiftProofs*.v): shift_vsock da db dc relabels every "
+      "sequence-number-valued field of the connection state (seq_nr, last_sent_seq_nr, snd_una, recovery point / high_rxt, the ack number "
+      "remembered for duplicate counting, FIN numbers in the state, ack numbers of queued messages by da; last_consumed, last_sent_ack_nr, "
+      "the remote FIN number, sequence numbers of queued messages by db; conn_id_send by dc), shift_op the delivered message, shift_vout the "
+      "emitted packets. c09_vstep_shift: vstep (shift s) (shift o) = shift (vstep s o) for EVERY state and event satisfying the boolean "
+      "guard c09_guard_vstep; c09_ftrace_shift / c09_model_trace_shift_ok / c09_model_runs_shift_ok: for every op list satisfying "
+      "c09_guard_trace the trace of the relabelled run is the relabelled trace and the extracted c09_shift_ok holds of the two model "
+      "traces (from vsock_new of the two parameter sets). Proved bottom-up: seq_sub/seq_gt (c09_seq_sub_shift), Segments "
+      "(remove_up_to_ack, calc_flight_size, iter_for_sending, calc_pipe), Recovery::on_ack, state_table, process_incoming_message, "
+      "recv loop, send_data, the recovery and new-data loops, send_tx_queue, split_tx_queue_into_segments, poll_body, the restart loop. "
+      "The guard is dynamic: it follows the step (running the model's own functions for the intermediate states) and asks, at each "
+      "wrap-tolerant comparison, that both operands are u16 values at true modular distance <= WRAP_TOLERANCE, and at each equality test "
+      "that both are u16 values; the atomic condition is tight (c09_seq_sub_shift_tight). Non-vacuity: c09_guard_satisfiable (a scenario "
+      "wrapping both numberings with out-of-order data, an RTO, a SACK fast recovery and both FINs). Outside the guard the clause is FALSE "
+      "of the model: c09_shift_outside_guard_refuted (two segments outstanding at snd_una 65534, ACK number 30000: ignored; relabelled by "
+      "10 it acknowledges everything) - class D4. c09_guard_trace_shift: the guard does not depend on the labelling (the relabelled "
+      "scenario is inside it as well).",
+      "the guard of the theorem (c09_guard_trace) needs the model state, not only the fingerprint; it can be evaluated on the inputs of a "
+      "metamorphic case by the extracted model (c09_guard_trace_cubic, not yet registered in the driver). The fingerprint-level guard "
+      "c09_within_tol used by the check is NOT proved to imply it (needs bounds on how far the numbers move inside one poll: open); "
+      "c09_within_tol_shift shows it judges both runs alike.",
+      "Coq proof (lia over mod 2^16; commutation of the whole connection model with the relabelling, by layers) + row-exhaustive "
+      "correspondence + metamorphic relabelling runs judged by an extracted predicate")
 _more("C10",
       "WHOLE-POLL THEOREMS (Conn/VSock_Poll*.v, 2400 lines): the strengthened joint invariant vs_x (vs_inv + per-segment send-time and "
       "MTU-probe facts + clock range) is preserved by process_incoming_message, recv_loop, process_all_incoming_messages, poll_body, the "
